@@ -2,6 +2,7 @@ package props
 
 import (
 	"fmt"
+	"sort"
 	"strings"
 
 	"github.com/openacid/low/bitmap"
@@ -49,7 +50,7 @@ func init() {
 					w.Bucket("cold-start")
 				}},
 				{Name: "small-all", N: len(small), Run: func(w *mon.W, idx int) { c11All(w, small[idx]) }},
-				{Name: "keyzoo-all", N: c.Pick(800, 200000), Run: func(w *mon.W, idx int) {
+				{Name: "keyzoo-all", Env: 2, N: c.Pick(800, 200000), Run: func(w *mon.W, idx int) {
 					ks := gen.KeyZoo(w.Rng, 1+w.Rng.Intn(3), 1+w.Rng.Intn(9))
 					k := ks[len(ks)-1]
 					if len(k) > 9 {
@@ -57,9 +58,10 @@ func init() {
 					}
 					c11All(w, k)
 				}},
-				{Name: "long-strings", N: c.Pick(60, 6000), Run: c11Long},
+				{Name: "long-strings", Env: 2, N: c.Pick(60, 6000), Run: c11Long},
 				{Name: "pathsof-structured", N: 33 * 4, Run: c11PathsOfStructured},
-				{Name: "pathsof-zoo", N: c.Pick(15000, 3000000), Run: c11PathsOfZoo},
+				{Name: "pathsof-big", Env: 3, N: 7 * c.Pick(2, 40), Run: c11PathsOfBig},
+				{Name: "pathsof-zoo", Env: 10, N: c.Pick(15000, 3000000), Run: c11PathsOfZoo},
 			}
 		},
 	})
@@ -229,6 +231,15 @@ func c11CheckPathsOf(w *mon.W, keys []string, from, h int, dedup bool) {
 		if dedup && len(all) > 0 && all[0] == ^uint64(0) && len(got) == len(exp)-1 {
 			sig = "PathsOf/dedup/first-all-ones-dropped"
 		}
+		if len(in) > 64 {
+			at := 0
+			for at < len(got) && at < len(exp) && got[at] == exp[at] {
+				at++
+			}
+			w.Fail(sig, mon.D{"nkeys": len(in), "first_keys": fmt.Sprintf("%q", in[:8]), "from": from, "h": h, "dedup": dedup, "got_len": len(got), "expected_len": len(exp), "first_difference_at": at,
+				"got_there": hexWords(got[min(at, len(got)):min(at+3, len(got))]), "expected_there": hexWords(exp[min(at, len(exp)):min(at+3, len(exp))])})
+			return
+		}
 		w.Fail(sig, mon.D{"keys": fmt.Sprintf("%q", in), "from": from, "h": h, "dedup": dedup, "got": hexWords(got), "expected": hexWords(exp)})
 		return
 	}
@@ -283,6 +294,33 @@ func c11PathsOfZoo(w *mon.W, idx int) {
 		c11CheckPathsOf(w, keys, from, h, dd)
 	}
 	w.Sample(func() interface{} { return mon.D{"keys": fmt.Sprintf("%q", keys), "from": from, "h": h} })
+}
+
+// c11PathsOfBig: batches of 1000..100003 keys (lengths that are no multiple of any small number), sorted as an
+// index builder passes them, short heights and late starts so that long runs of equal paths occur everywhere.
+func c11PathsOfBig(w *mon.W, idx int) {
+	r := w.Rng
+	n := []int{1000, 4096, 4097, 5003, 20011, 65537, 100003}[idx%7]
+	keys := make([]string, 0, n)
+	alpha := r.Pick(2, 3, 16, 256)
+	kl := 2 + r.Intn(5)
+	for len(keys) < n {
+		b := make([]byte, kl+r.Intn(2))
+		for i := range b {
+			b[i] = byte(r.Intn(alpha)) * byte(255/(alpha-1))
+		}
+		keys = append(keys, string(b))
+	}
+	if r.Intn(4) != 0 {
+		sort.Strings(keys)
+	}
+	from := r.Pick(0, 0, 3, 8, 13)
+	h := r.Pick(1, 3, 8, 11, 17, 32)
+	w.Bucket("PathsOf/batch>=1000")
+	for _, dd := range []bool{false, true} {
+		c11CheckPathsOf(w, keys, from, h, dd)
+	}
+	w.Sample(func() interface{} { return mon.D{"keys": n, "from": from, "h": h} })
 }
 
 // c11Long: strings of 50..1200 bytes, start bits near 0, in the middle and around the end, all widths.
